@@ -176,6 +176,19 @@ pub mod checks {
         }
         out
     }
+    /// nesting depth of a document, cut off at 64 (the deeply nested curated documents get a restricted query menu)
+    pub fn is_deep(v: &Value) -> bool {
+        fn go(v: &Value, d: usize) -> bool {
+            if d >= 64 { return true; }
+            match v { Value::Array(a) => a.iter().any(|x| go(x, d + 1)), Value::Object(o) => o.values().any(|x| go(x, d + 1)), _ => false }
+        }
+        go(v, 0)
+    }
+    /// on a deeply nested document: at most two segments, one `..`, and a `..` inside a filter only in one-segment queries
+    pub fn too_heavy_for_deep(q: &JpQuery) -> bool {
+        q.segments.len() > 2 || q.segments.iter().filter(|s| matches!(s, Segment::Descendant(_))).count() > 1
+            || (q.segments.len() > 1 && q.segments.iter().any(|s| desc_in_filter(s)))
+    }
     fn desc_in_filter(s: &Segment) -> bool {
         let is_desc = |x: &Segment| matches!(x, Segment::Descendant(_));
         match s {
@@ -329,7 +342,8 @@ pub mod checks {
         // quick: every query on the curated documents and on a rotating sample of the others; thorough: every pair
         let stride = if tier == "thorough" { 1 } else { 7 };
         let nthreads: usize = if only.is_some() { 1 } else { 8 };
-        let (ds, qs) = (&ds, &qs);
+        let deep: Vec<bool> = ds.iter().map(is_deep).collect();
+        let (ds, qs, deep) = (&ds, &qs, &deep);
         let parts: Vec<Report> = std::thread::scope(|sc| {
             let hs: Vec<_> = (0..nthreads).map(|t| sc.spawn(move || {
                 let mut rep = Report::new(name);
@@ -339,10 +353,8 @@ pub mod checks {
                         if let Some((a, b)) = only { if (qi, di) != (a, b) { continue; } }
                         else if (qi + di) % stride != 0 && di >= always() { continue; }
                         // the two deeply nested documents: at most two segments and one `..` (a descendant of a descendant of 600 nodes is quadratic)
-                        if name != "e2e_ext" && (di == always_small() || di == always_small() + 1)
-                            && (q.segments.len() > 2 || q.segments.iter().filter(|s| matches!(s, Segment::Descendant(_))).count() > 1
-                                // (a `..` inside a filter is evaluated once per candidate node: quadratic in the 600 nodes; allowed only for one-segment queries)
-                                || (q.segments.len() > 1 && q.segments.iter().any(|s| desc_in_filter(s)))) { continue; }
+                        // (a descendant of a descendant of 600 nodes is quadratic, and so is a `..` inside a filter, evaluated once per candidate node)
+                        if deep[di] && too_heavy_for_deep(q) { continue; }
                         let r1 = e2e_one(q, d, d, &mut rep, "serde_json::Value", (qi, di));
                         if name == "e2e_ext" { continue; }   // the second implementation has no extension functions (the trait's default returns null)
                         // quick: the second implementation on every pair with a curated document, on every other pair with a random one
@@ -502,6 +514,8 @@ pub mod checks {
         let stride = if tier == "thorough" || name == "text_arith" { 1 } else { 5 };
         // the queries are spread over 8 threads (a single (query, document) pair is replayed on one)
         let nthreads: usize = if only.is_some() { 1 } else { 8 };
+        let deep: Vec<bool> = ds.iter().map(is_deep).collect();
+        let deep_ref = &deep;
         let (qs_ref, ds_ref) = (&qs, &ds);
         let parts: Vec<(Report, u64)> = std::thread::scope(|sc| {
             let hs: Vec<_> = (0..nthreads).map(|t| sc.spawn(move || {
@@ -513,6 +527,7 @@ pub mod checks {
             let text = print::query(q);
             for (di, d) in ds.iter().enumerate() {
                 if let Some((a, b)) = only { if (qi, di) != (a, b) { continue; } } else if (qi + di) % stride != 0 && di >= always() { continue; }
+                if deep_ref[di] && too_heavy_for_deep(q) { continue; }
                 rep.evaluations += 1;
                 watch(name, || format!("js_path({:?}) on {}", text, d));
                 let c = Ctx::new(d);
